@@ -112,11 +112,12 @@ static std::vector<CheckDef> g_checks = {
           { "true parallel preemption inside a kernel is not simulated: the argument is that code which never writes static storage has nothing "
             "but caller-owned objects, its own stack and constants to interfere through",
             "std (non-FIPS) build: the self-test verdict is exercised by C17" } },
-        { "C15", "exploration", { { "hashlong", 1 } }, 30, 56, 120, 3000, false, false,
+        { "C15", "exploration", { { "hashlong", 1 } }, 28, 56, 150, 3000, false, false,
           "cases: long-stream workload on every (algorithm, family) pair in turn (run i uses pair i mod 28): up to 4 long clients stream the same "
           "periodic 2 MiB pattern through a 4 GiB aliased window under seeded segmentations (segments up to 2^32-1 bytes, bursts of small "
-          "unaligned segments around each threshold) interleaved with short clients; quick crosses 2^29 on all pairs and 2^32 on a rotated "
-          "subset, thorough crosses 2^32+2^29 on all; distinct_nontrivial: distinct (pair, stream position >> 26, segment length >> 20) cells",
+          "unaligned segments around each threshold) interleaved with short clients; quick crosses 2^29 and 2^32 on all 28 pairs (one long "
+          "client each), thorough crosses 2^32+2^29 on all with two long clients; distinct_nontrivial: distinct (pair, stream position >> "
+          "26, segment length >> 20) cells",
           { "one streaming reference digest per (algorithm, total length) shared by all clients and families of a process",
             "the periodic stream is a declared input like any other; periodicity is irrelevant to length accounting" } },
         { "C12", "exploration", { { "dispatch", 1 } }, 200000, 20000000, 50, 900, false, false,
@@ -1050,6 +1051,29 @@ int main(int argc, char **argv)
         }
         if (argc >= 4 && !strcmp(argv[1], "determinism"))
                 return selftest_determinism(argv[2], strtoull(argv[3], nullptr, 0));
+        if (argc >= 2 && !strcmp(argv[1], "refcache")) {
+                // precompute the long-stream reference states in parallel (one process per (algorithm, length))
+                extern RefHash long_reference(Algo a, uint64_t goal);
+                extern std::vector<std::pair<int, uint64_t>> long_reference_keys();
+                get_sim("hashlong");
+                std::vector<pid_t> kids;
+                for (auto &k : long_reference_keys()) {
+                        pid_t pid = fork();
+                        if (pid == 0) {
+                                long_reference((Algo) k.first, k.second);
+                                _exit(0);
+                        }
+                        kids.push_back(pid);
+                }
+                int bad = 0;
+                for (pid_t k : kids) {
+                        int st = 0;
+                        waitpid(k, &st, 0);
+                        bad += !(WIFEXITED(st) && WEXITSTATUS(st) == 0);
+                }
+                printf("long-stream reference cache: %zu entries, %d failed\n", kids.size(), bad);
+                return bad ? 2 : 0;
+        }
         if (argc >= 2 && !strcmp(argv[1], "selftest")) {
                 std::string s = models_selftest();
                 if (!s.empty()) {
